@@ -381,7 +381,7 @@ func c13r2(r *R) {
 	er := r.method(".", "HTTPProxy", "errorResponse")
 	okHook := false
 	for _, c := range calls(er, nameIs("martian/proxyutil.NewResponse")) {
-		okHook = describe(c.Common().Args[2]) == "$1"
+		okHook = describe(refArgs(c.Common())[2]) == "$1"
 	}
 	r.check(okHook, "HTTPProxy.errorResponse#bound", er.Pos(), "error response built with proxyutil.NewResponse(code, body, req)", "forwarder's error response is not bound to the failing request")
 }
@@ -709,7 +709,7 @@ func c13r5(r *R) {
 	cm := r.method(".", "dialerMetrics", "close")
 	lab := func(fn *ssa.Function) string {
 		for _, c := range calls(fn, nameIs("forwarder.addr2Host")) {
-			return describe(c.Common().Args[0])
+			return describe(refArgs(c.Common())[0])
 		}
 		return ""
 	}
